@@ -37,6 +37,17 @@ func (quiet) Fatalf(f string, v ...any)     { panic("FATAL: " + fmt.Sprintf(f, v
 
 var Quiet syslog.Logger = quiet{}
 
+// Logger is what Build installs through app.SetLogger (Quiet unless a worker switches to the
+// repository's own logger for race runs).
+var Logger syslog.Logger = Quiet
+
+// InstallRealLogger switches the process to the repository's own logger implementation at level
+// Error (exercises its code paths under the race detector; little output).
+func InstallRealLogger() {
+	Logger = syslog.New(syslog.LvError)
+	syslog.SetLogger(Logger)
+}
+
 // InstallQuietLogger must be called before anything else touches syslog (prefix loggers are
 // cached with the logger they were derived from).
 func InstallQuietLogger() { syslog.SetLogger(Quiet) }
